@@ -2,7 +2,7 @@
    [admin_routes], [ci_actions], [admin_auth_shape] are regenerated from nsqadmin/http.go and
    internal/clusterinfo/data.go on every run (gen/AdminRoutes.v). *)
 From Coq Require Import String List NArith Bool.
-From NSQV Require Import model.Judge gen.AdminRoutes model.Admin proofs.AdminProofs.
+From NSQV Require Import model.Judge model.Names gen.AdminRoutes model.Admin proofs.AdminProofs.
 Import ListNotations.
 Open Scope list_scope.
 Open Scope N_scope.
@@ -166,6 +166,61 @@ Theorem C17_topic_action_handler : forall cfg w rq t c act name,
   mkOut (o_status o) (if o_status o =? 200 then o_warn o else false) (o_calls o) false.
 Proof. exact topic_action_handler_runs. Qed.
 Print Assumptions C17_topic_action_handler.
+
+(* ... and the other four, with their validation: an invalid name / action / undecodable body is
+   refused (400) with nothing sent upstream *)
+Theorem C17_create_handler : forall cfg w rq t c a,
+  rq_method rq = "POST"%string -> authorized cfg rq = true -> rq_body rq = BodyJson t c a ->
+  Names.is_valid_name t = true -> (c = [] \/ Names.is_valid_name c = true) ->
+  handle cfg w admin_routes "/api/topics" rq = after_action (run_action w "CreateTopicChannel" (mkArgs t c [])).
+Proof. exact create_handler_runs. Qed.
+Print Assumptions C17_create_handler.
+
+Theorem C17_create_handler_validates : forall cfg w rq t c a,
+  rq_method rq = "POST"%string -> authorized cfg rq = true -> rq_body rq = BodyJson t c a ->
+  (Names.is_valid_name t = false \/ (c <> [] /\ Names.is_valid_name c = false)) ->
+  handle cfg w admin_routes "/api/topics" rq = mkOut 400 false [] false.
+Proof. exact create_handler_validates. Qed.
+Print Assumptions C17_create_handler_validates.
+
+Theorem C17_delete_channel_handler : forall cfg w rq,
+  rq_method rq = "DELETE"%string -> authorized cfg rq = true ->
+  handle cfg w admin_routes "/api/topics/:topic/:channel" rq =
+  after_action (run_action w "DeleteChannel" (mkArgs (rq_topic rq) (rq_channel rq) [])).
+Proof. exact delete_channel_handler_runs. Qed.
+Print Assumptions C17_delete_channel_handler.
+
+Theorem C17_channel_action_handler : forall cfg w rq t c act name,
+  rq_method rq = "POST"%string -> authorized cfg rq = true ->
+  rq_body rq = BodyJson t c act -> rq_channel rq <> [] ->
+  action_name act true = Some name ->
+  handle cfg w admin_routes "/api/topics/:topic/:channel" rq =
+  after_action (run_action w name (mkArgs (rq_topic rq) (rq_channel rq) [])).
+Proof. exact channel_action_handler_runs. Qed.
+Print Assumptions C17_channel_action_handler.
+
+Theorem C17_action_handler_validates : forall cfg w rq t c act,
+  rq_method rq = "POST"%string -> authorized cfg rq = true -> rq_body rq = BodyJson t c act ->
+  action_name act (negb (Nat.eqb (length (rq_channel rq)) 0)) = None ->
+  handle cfg w admin_routes "/api/topics/:topic" rq = mkOut 400 false [] false.
+Proof. exact action_handler_validates. Qed.
+Print Assumptions C17_action_handler_validates.
+
+Theorem C17_tombstone_handler : forall cfg w rq t c a,
+  rq_method rq = "DELETE"%string -> authorized cfg rq = true -> rq_body rq = BodyJson t c a ->
+  Names.is_valid_name t = true ->
+  handle cfg w admin_routes "/api/nodes/:node" rq =
+  after_action (run_action w "TombstoneNodeForTopic" (mkArgs t [] (rq_node rq))).
+Proof. exact tombstone_handler_runs. Qed.
+Print Assumptions C17_tombstone_handler.
+
+Theorem C17_bad_body_refused : forall cfg w rq p r,
+  find_route admin_routes (rq_method rq) p = RHandler r ->
+  In (ar_handler r) ["createTopicChannelHandler"; "tombstoneNodeForTopicHandler"; "topicActionHandler"; "channelActionHandler"]%string ->
+  authorized cfg rq = true -> rq_body rq = BodyBad ->
+  handle cfg w admin_routes p rq = mkOut 400 false [] false.
+Proof. exact bad_body_refused. Qed.
+Print Assumptions C17_bad_body_refused.
 
 (* C17_cidr: the test is a bit-prefix comparison *)
 Theorem C17_cidr_v4 : forall a p ip x, p <= 32 -> to4 ip = IP4 x ->
